@@ -47,6 +47,9 @@ type scriptedReader struct {
 	failData   []byte
 	failed     bool
 	afterError bool // Read was called again after the failing Read: the error was ignored
+	// delay: every Read after the first waits this long before it returns (a slow link: the bytes
+	// of one event arrive with pauses between them)
+	delay time.Duration
 }
 
 var errFailingRead = fmt.Errorf("harness: read failed")
@@ -73,6 +76,9 @@ func (s *scriptedReader) Read(p []byte) (int, error) {
 	}
 	c := s.chunks[0]
 	s.chunks = s.chunks[1:]
+	if s.delay > 0 && s.reads > 0 {
+		time.Sleep(s.delay)
+	}
 	s.reads++
 	if len(c) > len(p) {
 		panic("harness: chunk larger than the read buffer")
@@ -99,10 +105,14 @@ func implReaderX(chunks [][]byte, eof bool, failData []byte) (msgs []string, sta
 // context done). cancelled reports whether the reader returned the context's error. The
 // reads it issued after the cancellation are counted (readsAfterCancel must stay 0 or 1: the
 // Read in progress, never a further one after a message was refused).
+// readDelay: when non-zero, the scripted reader of the next implReader… call pauses this long before
+// every Read but the first (set and reset by the slow-link cases only; the streams are sequential)
+var readDelay time.Duration
+
 func implReaderC(chunks [][]byte, eof bool, failData []byte, budget int) (msgs []string, status string, cancelled bool) {
 	cp := make([][]byte, len(chunks))
 	copy(cp, chunks)
-	rd := &scriptedReader{chunks: cp, final: io.EOF, failData: failData}
+	rd := &scriptedReader{chunks: cp, final: io.EOF, failData: failData, delay: readDelay}
 	if !eof && failData == nil {
 		rd.idle = make(chan struct{})
 		rd.resume = make(chan struct{})
@@ -755,6 +765,59 @@ func streamReader(c *corrOut, g *inputGen, r *rng, n int, thorough bool) {
 		}
 		g.checkExpect(c, "C10", "several pastes in one run, each delivered in pieces after its start marker", chunks, expectedOf(evs, kr))
 	}
+	// C10 / C09: a SLOW LINK - the pieces of one paste (and of one mouse report, one key sequence) arrive
+	// with 260 ms between reads: however long the rest of an event takes to arrive, what was held
+	// back is kept, and the result is the same as with no pause at all
+	{
+		p := g.evPaste([]byte("slow \x1b[A paste"))
+		evs := []event{g.evRunes([]rune{'a'}), p, g.evRunes([]rune{'z'})}
+		all := concatEvents(evs)
+		readDelay = 260 * time.Millisecond
+		g.checkExpect(c, "C10", "paste arriving over a slow link (260 ms between reads)", [][]byte{all[:1+6+3], all[1+6+3 : len(all)-4], all[len(all)-4:]}, expectedOf(evs, kr))
+		m := evSGR(35, 10, 2, false)
+		pad := make([]rune, 250)
+		for i := range pad {
+			pad[i] = rune('a' + i%26)
+		}
+		evs2 := []event{g.evRunes(pad), m, g.evRunes([]rune{'t'})}
+		g.checkExpect(c, "C15", "a mouse report straddling the read buffer over a slow link (260 ms between reads)", fullReads(concatEvents(evs2)), expectedOf(evs2, kr))
+		readDelay = 0
+	}
+	// C10 / C15: pastes of 5, 9 and 33 KB whose END MARKER straddles a read boundary at every offset,
+	// followed by more than a buffer of further input (everything still pending behind the marker)
+	for _, base := range []int{5000, 9000, 33000} {
+		for cut := 1; cut <= 5; cut++ {
+			// payload length such that the end marker starts `cut` bytes before a 256-byte boundary
+			sz := base
+			for (6+sz+cut)%256 != 0 {
+				sz++
+			}
+			payload := make([]byte, sz)
+			for i := range payload {
+				payload[i] = byte('a' + i%26)
+			}
+			tailRunes := make([]rune, 300)
+			for i := range tailRunes {
+				tailRunes[i] = rune('A' + i%26)
+			}
+			evs := []event{g.evPaste(payload), evCtrl('\r', false), g.evRunes(tailRunes)}
+			want := strings.Join(expectedOf(evs, kr), " | ")
+			line, _, _ := implReaderLine(fullReads(concatEvents(evs)), true)
+			if line != want {
+				short := func(s string) string {
+					if len(s) > 160 {
+						return s[:90] + " … " + s[len(s)-60:]
+					}
+					return s
+				}
+				for _, prop := range []string{"C10", "C15", "C09"} {
+					c.addFinding(finding{Property: prop, Class: "new", What: "a long paste whose end marker straddles a read boundary, with more input pending behind it, is not delivered as one paste followed by the rest",
+						Input:    fmt.Sprintf("paste of %d bytes (end marker %d bytes before a 256-byte boundary), CR, 300 letters; full reads", sz, cut),
+						Expected: short(want), Observed: short(line)})
+				}
+			}
+		}
+	}
 	// C10: a very large paste (implementation-only oracle; the model side of it is the unbounded theorem
 	// C10_chunked_paste): still exactly one paste message, whatever the payload length
 	bigSizes := []int{1<<16 + 77, 1<<20 + 4096}
@@ -780,6 +843,10 @@ func streamReader(c *corrOut, g *inputGen, r *rng, n int, thorough bool) {
 					return s[:120] + " … " + s[len(s)-60:]
 				}
 				return s
+			}
+			for _, prop := range []string{"C09", "C15"} { // nothing skipped / as if it had arrived in one piece
+				c.addFinding(finding{Property: prop, Class: "new", What: "a large paste is not delivered as exactly one paste message (bytes lost or decoded as something else)",
+					Input: fmt.Sprintf("paste of %d bytes followed by 'z', read in full 256-byte reads", sz), Expected: short(want), Observed: short(line)})
 			}
 			c.addFinding(finding{Property: "C10", Class: "new", What: "a large paste is not delivered as exactly one paste message",
 				Input:    fmt.Sprintf("paste of %d bytes (letters, spaces, ESC[A, a mouse report and CR in the middle) followed by 'z', read in full 256-byte reads", sz),
